@@ -566,6 +566,10 @@ func (c *compiler) setQualname() {
 
 // Compile a function
 func (c *compiler) compileFunc(compilerScope compilerScopeType, Ast ast.Ast, Args *ast.Arguments, DecoratorList []ast.Expr, Returns ast.Expr) {
+	// The operands of MAKE_FUNCTION and CALL_FUNCTION hold each count in one byte
+	if len(Args.Args)+len(Args.Kwonlyargs) > 255 {
+		c.panicSyntaxErrorf(Ast, "more than 255 arguments")
+	}
 	newC := c.newCompilerScope(compilerScope, Ast, "")
 	newC.Code.Argcount = int32(len(Args.Args))
 	newC.Code.Kwonlyargcount = int32(len(Args.Kwonlyargs))
@@ -1393,10 +1397,17 @@ func (c *compiler) NameOp(name string, ctx ast.ExprContext) {
 // Call a function which is already on the stack with n arguments already on the stack
 func (c *compiler) callHelper(n int, Args []ast.Expr, Keywords []*ast.Keyword, Starargs ast.Expr, Kwargs ast.Expr) {
 	args := len(Args) + n
+	kwargs := len(Keywords)
+	// CALL_FUNCTION holds each of the two counts in one byte of its operand
+	if args+kwargs > 255 {
+		if len(Keywords) > 0 {
+			c.panicSyntaxErrorf(Keywords[len(Keywords)-1], "more than 255 arguments")
+		}
+		c.panicSyntaxErrorf(Args[len(Args)-1], "more than 255 arguments")
+	}
 	for i := range Args {
 		c.Expr(Args[i])
 	}
-	kwargs := len(Keywords)
 	duplicateDetector := make(map[ast.Identifier]struct{}, len(Keywords))
 	var duplicate *ast.Keyword
 	for i := range Keywords {
